@@ -88,6 +88,10 @@ def configs(max_deps):
     return out
 
 
+VAB_LABEL = ['b1']      # the label of app vab's evolution (scenarios may
+                        # set it to 'a2' so that two apps share a label)
+
+
 def install(version, deps, applied_a1=False):
     """Install code `version` (0 = old, 2 = everything pending)."""
     proj = project(version)
@@ -116,8 +120,8 @@ def install(version, deps, applied_a1=False):
             'a2': body('va', 'a2', [['AddField', 'Item', 'n2', 'Int',
                                      {'null': True}, None]])},
             'top': dmap.get(('va', None), {})}
-        evos['vab'] = {'SEQUENCE': ['b1'], 'modules': {
-            'b1': body('vab', 'b1', [['AddField', 'Thing', 'n1', 'Int',
+        evos['vab'] = {'SEQUENCE': [VAB_LABEL[0]], 'modules': {
+            VAB_LABEL[0]: body('vab', 'b1', [['AddField', 'Thing', 'n1', 'Int',
                                       {'null': True}, None]])},
             'top': dmap.get(('vab', None), {})}
         evos['vc'] = {'SEQUENCE': ['c1'], 'modules': {
@@ -302,7 +306,7 @@ def units_from_sql(effects, applied=(), dedup=True):
                 if added('"n2"'):
                     emit(('e', 'va', 'a2'))
             elif '"vab_thing"' in s_ and added('"n1"'):
-                emit(('e', 'vab', 'b1'))
+                emit(('e', 'vab', VAB_LABEL[0]))
             pending_create = None
     return order
 
